@@ -9,6 +9,7 @@ def main():
     cfgs = ["MC_BigWig_t1.cfg", "MC_BigWig_t2.cfg"] if run.thorough else ["MC_BigWig_q1.cfg", "MC_BigWig_q2.cfg"]
     beh = emit(run, "MC_BigWig", cfgs)
     obs = judge(run, "C06", "Obs_BigWig", make_cases(beh, "bw", sizes, run), lambda o: len(o["items"]) >= 2, desc)
+    wobs = obs
     run.sample({"kind": "bw", "items": obs[len(obs) // 3]["items"], "summary": obs[len(obs) // 3]["obs"].get("summary")})
     cfgs = ["MC_BigBed_t1.cfg", "MC_BigBed_t2.cfg"] if run.thorough else ["MC_BigBed_q1.cfg", "MC_BigBed_q2.cfg"]
     beh = emit(run, "MC_BigBed", cfgs)
@@ -17,10 +18,67 @@ def main():
         return any(its[i][0] == its[j][0] and its[i][2] > its[j][1] and its[i][1] < its[j][2] for i in range(len(its)) for j in range(i + 1, len(its)))
     obs = judge(run, "C06", "Obs_BigBed", make_cases(beh, "bb", sizes, run), overl, desc)
     run.sample({"kind": "bb", "items": obs[len(obs) // 3]["items"], "summary": obs[len(obs) // 3]["obs"].get("summary")})
-    run.cov["rule"] = ("all layouts of the C01/C02 generators; non-trivial = at least 2 bigWig values / at least one pair of overlapping bigBed entries; "
+    info_part(run, obs_w_sample=wobs, obs_b_sample=obs)
+    run.cov["rule"] = ("all layouts of the C01/C02 generators; a sample also through bigwiginfo / bigbedinfo under position embeddings x1, x1000, x1234567 (thousands separators); non-trivial = at least 2 bigWig values / at least one pair of overlapping bigBed entries; "
                        "distinct by (items, ips, zooms)")
     run.assumptions += ["integer-valued data so that sums are exact", "whether a zero-length bigWig value takes part in min/max is not stated: both readings accepted"]
     return run.finish()
+
+
+def info_part(run, obs_w_sample, obs_b_sample):
+    """the info tools' text as a function of the data (anchors: utils/cli/bigwiginfo.rs, bigbedinfo.rs)"""
+    from checks import cli_family as cf
+    import re as _re
+    tdir = cf.tools_dir()
+    d = os.path.join(run.wd, "info")
+    os.makedirs(d, exist_ok=True)
+    n = 150 if run.thorough else 30
+    cases = []
+    for kind, ob in (("bw", obs_w_sample), ("bb", obs_b_sample)):
+        ob = [o for o in ob if not (kind == "bb" and any(it[1] == 0 and it[2] == 0 for it in o["items"]))]
+        step = max(1, len(ob) // n)
+        for k, o in enumerate(ob[::step][:n]):
+            c = {kk: o[kk] for kk in o if kk != "obs"}
+            c["scale"] = [1, 1000, 1234567][k % 3]
+            c["allq"], c["zq"] = 0, 0
+            c["dump"] = os.path.join(d, "%s%d.bin" % (kind, k))
+            cases.append(c)
+    res = run_harness("bbi", cases, run.wd, shards=2)
+    lines, keep = [], []
+    for o in res:
+        if o["obs"].get("result") != "ok" or not os.path.exists(o["dump"]):
+            continue
+        tool = "bigwiginfo" if o["kind"] == "bw" else "bigbedinfo"
+        rc, out, err = cf.run_tool(tdir, "own", tool, [o["dump"]])
+        os.remove(o["dump"])
+        f = {}
+        for line in out.splitlines():
+            if ":" in line:
+                a, _, b = line.partition(":")
+                f[a.strip()] = b.strip()
+        parsed = 1
+        try:
+            ob = {"rc": rc, "bases": int(f["basesCovered"].replace(",", "")),
+                  "min_u": cf.milli((f.get("min") or f.get("minDepth")))[0] * 1000 if False else int(round(float(f.get("min") or f.get("minDepth")) * 1000000)),
+                  "max_u": int(round(float(f.get("max") or f.get("maxDepth")) * 1000000)),
+                  "mean_u": int(round(float(f.get("mean") or f.get("meanDepth")) * 1000000)) if (f.get("mean") or f.get("meanDepth")) not in (None, "NaN") else 0,
+                  "items": int(f.get("itemCount", "0").replace(",", ""))}
+        except Exception:
+            parsed = 0
+            ob = {"rc": rc, "bases": 0, "min_u": 0, "max_u": 0, "mean_u": 0, "items": 0}
+        ob["parsed"] = parsed
+        ob["raw"] = out[:400]
+        rec = {"kind": o["kind"], "items": o["items"], "scale": o["scale"], "zl": 1 if any(it[1] == it[2] for it in o["items"]) else 0, "obs": ob}
+        keep.append(rec)
+        lines.append(json.dumps(rec, separators=(",", ":")))
+        run.count_case("info" + json.dumps([o["kind"], o["items"], o["scale"]]), o["scale"] > 1)
+    bad = validate_obs("Obs_Info", "Obs.cfg", lines, run.wd, "info", shards=1)
+    run.cov["traces_validated_against_impl"] += len(keep)
+    run.cov["info_tool_runs"] = len(keep)
+    for i, tag in bad:
+        o = keep[i]
+        run.violation("C06 info tool %s: kind=%s scale=%s items=%s -> %s" % (tag, o["kind"], o["scale"], json.dumps(o["items"]), o["obs"]["raw"][:200]),
+                      {"kind": "info", "tag": tag, "case": {k: o[k] for k in o if k != "obs"}, "obs": o["obs"]})
 
 
 if __name__ == "__main__":
